@@ -68,24 +68,35 @@ def showShape (s : Shape) : String :=
   "(" ++ showRat s.x ++ " " ++ showRat s.y ++ " " ++ showRat s.mw ++ " " ++ showRat s.mh ++ " " ++
     (match s.side with | .left => "left" | .right => "right") ++ ")"
 
-/-- `(float <abox>)` | `(para clear fs (w…))` | `(bfc clear width h ml mr)` | `(block clear h)` -/
+/-- `(w (<abox>…))` -/
+def lineSpec? : Sx → Option LineSpec
+  | .list [w, .list fs] => do pure ⟨← w.rat?, ← allSome abox? fs⟩
+  | _ => none
+
+/-- `(float <abox>)` | `(para clear fs (<line>…) mt mb)` | `(bfc clear width h ml mr mt mb)` |
+`(block clear h mt mb)` | `(img clear w h ml mr)` | `(table clear w h ml mr)` -/
 def item? : Sx → Option Item
   | .list [.atom "float", b] => (abox? b).map .float
-  | .list [.atom "para", c, fs, .list ws] => do
-    pure (.para (← clear? c) (← fs.rat?) (← allSome Sx.rat? ws))
-  | .list [.atom "bfc", c, w, h, ml, mr] => do
-    pure (.bfc (← clear? c) (← w.len?) (← h.rat?) (← ml.rat?) (← mr.rat?))
-  | .list [.atom "block", c, h] => do pure (.block (← clear? c) (← h.rat?))
+  | .list [.atom "para", c, fs, .list ls, mt, mb] => do
+    pure (.para (← clear? c) (← fs.rat?) (← allSome lineSpec? ls) (← mt.rat?) (← mb.rat?))
+  | .list [.atom "bfc", c, w, h, ml, mr, mt, mb] => do
+    pure (.bfc (← clear? c) (← w.len?) (← h.rat?) (← ml.rat?) (← mr.rat?) (← mt.rat?) (← mb.rat?))
+  | .list [.atom "block", c, h, mt, mb] => do pure (.block (← clear? c) (← h.rat?) (← mt.rat?) (← mb.rat?))
   | .list [.atom "img", c, w, h, ml, mr] => do
     pure (.replaced .replaced (← clear? c) (← w.rat?) (← h.rat?) (← ml.rat?) (← mr.rat?))
   | .list [.atom "table", c, w, h, ml, mr] => do
     pure (.replaced .tableWrapper (← clear? c) (← w.rat?) (← h.rat?) (← ml.rat?) (← mr.rat?))
   | _ => none
 
+def showRect (r : Rat × Rat × Rat × Rat) : String :=
+  "(F " ++ " ".intercalate ([r.1, r.2.1, r.2.2.1, r.2.2.2].map showRat) ++ ")"
+
 def showPlaced : Placed → String
-  | .float x y mw mh => "(F " ++ " ".intercalate ([x, y, mw, mh].map showRat) ++ ")"
-  | .para lines => "(P" ++ String.join (lines.map fun (x, y, w) =>
-      " (" ++ showRat x ++ " " ++ showRat y ++ " " ++ showRat w ++ ")") ++ ")"
+  | .float x y mw mh => showRect (x, y, mw, mh)
+  | .para lines => "(P" ++ String.join (lines.map fun l =>
+      (if l.floats.isEmpty then " (" ++ showRat l.x ++ " " ++ showRat l.y ++ " " ++ showRat l.w
+       else " (- " ++ showRat l.y ++ " -") ++
+        String.join (l.floats.map fun r => " " ++ showRect r) ++ ")") ++ ")"
   | .bfc x y w h => "(B " ++ " ".intercalate ([x, y, w, h].map showRat) ++ ")"
   | .block y => "(K " ++ showRat y ++ ")"
   | .replaced x y w h => "(R " ++ " ".intercalate ([x, y, w, h].map showRat) ++ ")"
